@@ -627,12 +627,15 @@ where
         &self,
         start_index: usize,
     ) -> Result<Graph<NullVertex, NullEdge>, Error> {
-        let mut graph = Graph::new();
-        for vertex in &self.vertices {
-            graph.insert_vertex(NullVertex::new(*vertex.0))?;
-        }
-
         let idoms = self.compute_immediate_dominators(start_index)?;
+
+        // The tree spans the vertices reachable from the start node: the start
+        // node itself and every vertex with an immediate dominator.
+        let mut graph = Graph::new();
+        graph.insert_vertex(NullVertex::new(start_index))?;
+        for vertex in idoms.keys() {
+            graph.insert_vertex(NullVertex::new(*vertex))?;
+        }
         for (vertex, idom) in idoms {
             graph.insert_edge(NullEdge::new(idom, vertex))?;
         }
